@@ -37,7 +37,20 @@ section construct; no tab inside the DSP56K blank-divided parallel moves is NOT 
 Not covered: -U mode (no golden test uses it: symbol case is then left alone anyway), per-target operand parsers
 other than end-to-end through .ori, line length > 250 after rewriting (left alone).
 
-Mutations tried (scratch copy, VERIF_REPO): see the end of this file's history in the final report / manifest.
+Findings on the pinned tree: (1) DSP56K DivideChars " \\009" (tab between parallel moves not a divider; fixed in
+/repo meanwhile), (2) a comment behind EX A,A' (Z380) / XA' (75K0) is swallowed by the "string" the apostrophe
+opens (known_findings/C16.json, proposed_fixes/C16-*.diff).
+
+Mutations of the real code tried on a scratch copy (selftest/C16-m*.py, selftest/mutate_and_check.sh):
+  m1 motpseudo.c: upper-case size attribute (.W) rejected          4 ctest failures   caught (image differs)
+  m2 as.c: capitalised mnemonic ("Nop") not case-folded            ctest passes       caught (needs case mode "alt")
+  m3 as.c: {GLOBALSYMBOLS} ignored on macro expansion              ctest passes       caught (macro wrap)
+  m4 strutil.c: KillPostBlanks strips blanks only (tab before ,)   105 ctest failures caught
+  -- as.c: "lab:op" without blank not split at the colon           3 ctest failures   caught
+  -- as.c: no KillPostBlanks on arguments ("a ,b")                 7 ctest failures   caught
+  -- strutil.c: CR in front of LF not stripped                     ctest passes       NOT caught - equivalent for
+     the code: CR is white space for SplitLine; only continuation lines would differ and they stay untouched.
+./check C16 --selftest shows the trace binding (a changed field of a recorded split event is rejected).
 """
 import os
 import shutil
